@@ -75,6 +75,11 @@ class State:
                 self.writers[n], self.kind[n] = Recorder(n), "recorder"
         # reference model
         self.registry = ["cfgpath"] if "cfgpath" in names else (["cfgmem"] if "cfgmem" in names else [])
+        # a second builder with its own output lives next to this one and keeps writing
+        self.other = GCodeBuilder(line_endings="\\r\\n")
+        self.other_rec = Recorder("bystander")
+        self.other.add_writer(self.other_rec)
+        self.other_lines = 0
         self.log = {n: b"" for n in names}          # everything a writer should have received
         self.session = {n: b"" for n in names}      # path files: content of the current (or last) session
         self.open = {n: False for n in names}       # path files: session open (written since last disconnect)
@@ -119,7 +124,8 @@ class C14System:
         ops += [["flush"], ["teardown"], ["teardown", [False]]]
         if self.formatters:
             # the formatter object is replaced on the live builder (other line ending), or re-configured in place
-            ops += [["set_formatter", ["\\r\\n"]], ["set_formatter", ["\\n"]], ["set_line_endings", ["\\r\\n"]], ["set_line_endings", ["\\n"]]]
+            ops += [["set_formatter", ["\\r\\n"]], ["set_formatter", ["\\n"]], ["set_line_endings", ["\\r\\n"]], ["set_line_endings", ["\\n"]],
+                    ["set_formatter", ["numbering"]]]
         return ops
 
     def read(self, st, n):
@@ -155,6 +161,9 @@ class C14System:
               elif name == "emit":
                   fn, text = EMITS[op[1][0]]
                   line = text.encode("utf-8") + st.end
+                  if getattr(st, "numbering", None) is not None:
+                      st.numbering += 1
+                      line = f"N{st.numbering} ".encode() + line
                   for n in st.registry:
                       st.log[n] += line
                       if st.kind[n] == "path":
@@ -170,17 +179,27 @@ class C14System:
                       g.teardown(*op[1])
                   else:
                       g.teardown()
+              elif name == "set_formatter" and op[1][0] == "numbering":
+                  g.set_formatter(NumberingFormatter())
+                  st.end, st.numbering = b"\n", 0
               elif name == "set_formatter":
-                  from gscrib.formatters import DefaultFormatter
                   fmt = DefaultFormatter()
                   fmt.set_line_endings(op[1][0])
                   g.set_formatter(fmt)
+                  st.numbering = None
                   st.end = op[1][0].encode().decode("unicode-escape").encode("utf-8")
               elif name == "set_line_endings":
                   g.format.set_line_endings(op[1][0])
                   st.end = op[1][0].encode().decode("unicode-escape").encode("utf-8")
         except Exception as e:   # noqa: BLE001
             exc = e
+        try:
+            st.other.write("M117 bystander")
+            st.other_lines += 1
+        except Exception as e:      # noqa: BLE001
+            P.append(("bystander-write-raised", f"a second builder's write raised {e!r} after {op}"))
+        if b"".join(st.other_rec.new) != b"M117 bystander\r\n" * st.other_lines:
+            P.append(("bystander-log-differs", f"after {op}: the second builder's own writer holds {b''.join(st.other_rec.new)[-80:]!r} ({st.other_lines} lines written through it)"))
         st.last_exc, st.last_rejected = exc, exc is not None
         if exc is not None:
             P.append((f"{name}-raised", f"{op} raised {exc!r} (registry {st.registry})"))
@@ -250,7 +269,7 @@ class C14System:
             i += 1
 
     def canon(self, st):
-        return (tuple(st.registry), self.real_registry(st), tuple((n, st.open[n], digest(st.log[n]), digest(st.session[n])) for n in self.names), st.emits, st.end)
+        return (tuple(st.registry), self.real_registry(st), tuple((n, st.open[n], digest(st.log[n]), digest(st.session[n])) for n in self.names), st.emits, st.end, getattr(st, "numbering", None))
 
     def outcome(self, st):
         return (tuple(st.registry), st.emits, type(st.last_exc).__name__ if st.last_exc else None)
@@ -264,6 +283,21 @@ ASSUMPTIONS = ["not demanded: that teardown pushes a caller-owned buffered file 
                "nothing is demanded about writers removed before flush/teardown; one FileWriter per path"]
 
 
+from gscrib.formatters import DefaultFormatter     # noqa: E402
+
+
+class NumberingFormatter(DefaultFormatter):
+    """A stateful user formatter: every statement gets the next line number (formatting a statement twice burns a number)."""
+
+    def __init__(self):
+        super().__init__()
+        self.n = 0
+
+    def line(self, statement):
+        self.n += 1
+        return f"N{self.n} " + super().line(statement)
+
+
 def debug(system):
     system.debug_log = True
     return system
@@ -274,7 +308,7 @@ def systems(tier):
         return [("lf-4writers", C14System(["pathA", "text", "rec1", "rec2"], "\\n", 2), 5, None),
                 ("crlf-3writers-debug-logging", debug(C14System(["rec1", "pathA", "binary"], "\\r\\n", 2)), 5, None),
                 ("output-option", C14System(["cfgpath", "rec1", "codecs", "utf16"], "\\n", 2), 4, None),
-                ("formatter-replaced", C14System(["rec1", "pathA"], "\\n", 2, formatters=True), 4, None),
+                ("formatter-replaced", C14System(["rec1", "rec2", "pathA"], "\\n", 2, formatters=True), 4, None),
                 ("output-option-stream-in-GConfig", C14System(["cfgmem", "rec1"], "\\n", 2), 4, None)]
     return [("lf-5writers", C14System(["pathA", "pathB", "text", "rec1", "rec2"], "\\n", 3), 6, None),
             ("crlf-4writers-debug-logging", debug(C14System(["rec1", "pathA", "binary", "text"], "\\r\\n", 3)), 7, None),
